@@ -958,6 +958,8 @@ mksection .text
         mov     num_bytes, [job + _msg_len_to_hash_in_bytes]
         sub     num_bytes, 8
 %endif
+        ;; CRC part of the tag is zero unless Ethernet FCS is computed below
+        xor     DWORD(ethernet_fcs), DWORD(ethernet_fcs)
         or      bytes_to_crc, bytes_to_crc
         jz      %%_crc_done
 
